@@ -19,7 +19,7 @@ from vf.checks import c14
 
 SHARDS = {'quick': 16, 'thorough': 64}
 TIMEOUT = {'quick': 1500, 'thorough': 7200}
-MUST_HIT = ['Xsd.attribute-of-unsupported-data-type', 'Xsd.well-formed', 'Xsd.types', 'Xsd.classes', 'Xsd.after-edit', 'Xsd.cli-file',
+MUST_HIT = ['EarlierObject.rechecked', 'Xsd.attribute-of-unsupported-data-type', 'Xsd.well-formed', 'Xsd.types', 'Xsd.classes', 'Xsd.after-edit', 'Xsd.cli-file',
             'Xsd.enumerator-order', 'Xsd.real-model-edit', 'Xsd.xml-special-names']
 MUST_REACH = ['bridgepoint/gen_xsd_schema.py:build_schema', 'bridgepoint/gen_xsd_schema.py:build_component',
               'bridgepoint/gen_xsd_schema.py:build_class', 'bridgepoint/gen_xsd_schema.py:build_enum_type',
@@ -69,6 +69,9 @@ def generate(ctx, text, component):
         root = ET.fromstring(s)
     except Exception as e:
         raise Mismatch('well-formed/%s' % type(e).__name__, 'generated schema is not well-formed XML: %s' % e)
+    # generating again from the same loaded model, after other models went through the generator
+    ctx.later('schema', (lambda m=m, c_c=c_c: ET.tostring(gen_xsd_schema.build_schema(m, c_c), 'utf-8')),
+              'schema generated for the same model')
     return root
 
 
